@@ -1,8 +1,91 @@
 /-
-C08 — property theorems (under construction; see DESIGN.md section 8).
+C08 — Retained messages: one per topic, delivered to new subscriptions with
+RETAIN = 1, forwarded to existing subscriptions with RETAIN = 0.
+
+Property theorems only (helper lemmas: `Proofs/BrokerFanout*.lean`).  Model:
+`Model/Broker.lean` (`retainStep`, `onPublish`, `subscribeLoop`, `sendRetained`,
+`srvSub`) over the retained trie of `Model/Topics.lean` and its finished
+theorems (`Properties/C06.lean`); specification: `Spec/Broker.lean`.
 -/
-import Mqtt.Model.Broker
-import Mqtt.Spec.Broker
+import Mqtt.Proofs.BrokerFanoutOut
+
+set_option linter.unusedSimpArgs false
 
 namespace Mqtt.Properties.C08
+open Mqtt.Iface.Broker Mqtt.Model.Broker Mqtt.Proofs.Broker
+
+def exConnect (c : Nat) (cid : Bytes) : Ev :=
+  .first c (.connect { protoName := [77, 81, 84, 84], version := 4, clean := true, will := none, clientId := cid }) true
+
+/-- example state: connection 1 holds "a/+" (QoS 1), connection 2 "#" (QoS 1),
+in-process subscriber 1000 "a/#" (QoS 1) -/
+def exState : B :=
+  (run {} [exConnect 1 [97], exConnect 2 [98], .srvSub 1000 [97, 47, 35] 1,
+           .packet 1 (.subscribe 1 [([97, 47, 43], 1)]),
+           .packet 2 (.subscribe 1 [([35], 1)])]).1
+
+/-! ### (f) forwards to existing subscriptions carry RETAIN = 0 -/
+
+/-- Every output of `onPublish` (any state, any message object - no
+hypothesis at all) is a PUBLISH with RETAIN = 0 written to a connection, or an
+invocation of an in-process callback. -/
+theorem C08_forward_retain_zero (b : B) (m : Msg) :
+    ∀ o ∈ (onPublish b m).2.2.1,
+      (∃ d w, o = .send d (.publish w) ∧ d < cbBase ∧ w.retain = false) ∨ (∃ cb w, o = .call cb w ∧ cbBase ≤ cb) := by
+  intro o ho
+  have := onPublish_out b m o ho
+  unfold fwdOk at this
+  split at this
+  · rename_i d w
+    simp only [Bool.and_eq_true, Bool.not_eq_true', decide_eq_true_eq] at this
+    exact Or.inl ⟨d, w, rfl, this.2, this.1⟩
+  · rename_i cb w
+    exact Or.inr ⟨cb, w, rfl, by simpa using this⟩
+  · cases this
+
+/-- the same for the loop itself -/
+theorem C08_fanout_retain_zero (b : B) (m : Msg) (subs : List (Nat × Nat)) :
+    ∀ d w, Out.send d (.publish w) ∈ (fanout b m subs).2.2 → w.retain = false := by
+  intro d w ho
+  have := fanout_out subs b m _ ho
+  simp only [fwdOk, Bool.and_eq_true, Bool.not_eq_true'] at this
+  exact this.1
+
+/-- On the whole step function: whatever the event - a PUBLISH of any QoS, a
+PUBREL releasing stored messages, the will at a connection end, the in-process
+`Publish`, ... - no PUBLISH with RETAIN = 1 is written to any connection,
+except by the retained delivery of a SUBSCRIBE packet. -/
+theorem C08_step_retain_zero (b : B) (e : Ev) (he : isSubscribeEv e = false) :
+    ∀ d w, Out.send d (.publish w) ∈ (step b e).2 → w.retain = false := by
+  intro d w ho
+  have := step_out b e he _ ho
+  simpa [noRetainSend] using this
+
+/-- the full statement: in-process callbacks included -/
+def C08_forward_retain_zero_full : Prop :=
+  ∀ (b : B) (m : Msg), ∀ o ∈ (onPublish b m).2.2.1,
+    match o with
+    | .send _ (.publish w) => w.retain = false
+    | .call _ w => w.retain = false
+    | _ => True
+
+/-- False of the code as it is (finding E10): an in-process callback is handed
+the publisher's message object as it is, RETAIN = 1 included. -/
+theorem C08_forward_retain_zero_callback_counterexample : ¬ C08_forward_retain_zero_full := by
+  intro h
+  have := h exState ⟨{ qos := 1, retain := true, topic := [97, 47, 98], pktid := 5, payload := [7] }, false⟩
+    (.call 1000 { qos := 1, retain := true, topic := [97, 47, 98], pktid := 5, payload := [7] }) (by decide)
+  exact absurd this (by decide)
+
+/-- non-vacuity: the retained QoS 1 PUBLISH "a/b" from connection 2 is
+acknowledged and forwarded with RETAIN = 0 to connections 1 and 2, RETAIN = 1
+to callback 1000 -/
+example :
+    (step exState (.packet 2 (.publish { qos := 1, retain := true, topic := [97, 47, 98], pktid := 5, payload := [7] }))).2 =
+      [.send 2 (.puback 5),
+       .call 1000 { qos := 1, retain := true, topic := [97, 47, 98], pktid := 5, payload := [7] },
+       .send 1 (.publish { qos := 1, retain := false, topic := [97, 47, 98], pktid := 5, payload := [7] }),
+       .send 2 (.publish { qos := 1, retain := false, topic := [97, 47, 98], pktid := 5, payload := [7] })] := by
+  decide
+
 end Mqtt.Properties.C08
